@@ -47,6 +47,9 @@ structure Cluster where
   order : Order := .req
   /-- when set, a partition answered with an injected error still carries its data (hostile but well-formed) -/
   dataWithError : Bool := true
+  /-- brokers that answer a fetch with a well-formed reply of an unusual shape: 1 = no topics at all,
+      2 = every asked topic listed without partitions (nothing in the protocol forbids either) -/
+  fetchShape : List (Int × Nat) := []
 deriving Repr
 
 /-! ### message-set construction for logs -/
@@ -147,6 +150,10 @@ def handleMetadata (c : Cluster) (names : List Bytes) : RespBody :=
     | none => ⟨3, n, []⟩))
 
 def handleFetch (c : Cluster) (node : Int) (topics : List (Bytes × List FetchPart)) : Cluster × RespBody :=
+  match (c.fetchShape.find? (·.1 == node)).map (·.2) with
+  | some 1 => (c, .fetch [])
+  | some 2 => (c, .fetch ((reorder c.order topics).map fun (t, _) => (t, [])))
+  | _ =>
   let (c, ts) := mapParts c (reorder c.order topics) fun c (t, ps) =>
     let (c, rs) := mapParts c (reorder c.order ps) fun c fp =>
       let (fault, fs) := takeFault c.faults 1 t fp.partition
